@@ -6,7 +6,7 @@ From SF Require Import Bytes Values Wire Parse Session Session_proofs Session_c0
    registrations, timer expiries): a session that starts not logged on is logged on afterwards
    only if the history delivered a Logon that parses (integrity check included) and that was
    handled either while waiting for one under the acceptance conditions -- method in the allowed
-   set, heartbeat interval within the limits, callback approving -- or, on the initiating side,
+   set, heartbeat interval within the limits and positive, callback approving -- or, on the initiating side,
    while waiting for the answer to its own Logon. *)
 Theorem C06_logged_only_through_logon :
   forall cfg ops s,
@@ -31,6 +31,7 @@ Theorem C06_accepted_answer :
     parse_as msgtype_Logon tpl_Logon d = Ok lm -> s_state s = WaitingLogon ->
     let ns := logon_settings cfg (s_settings s) lm in
     check_logon_params cfg (upd_settings s ns) (st_enc ns) (st_hb ns) = None -> c_approve cfg ns = true ->
+    (0 < st_hb ns)%Z ->
     run_in_handler cfg s HLogon d =
     (let '(s3, o3) := change_state (start_timers (upd_settings s ns)) SuccessfulLogged in
      let '(s4, o4) := session_send cfg s3 (logon_answer (st_enc ns) (st_hb ns)) in
@@ -38,6 +39,21 @@ Theorem C06_accepted_answer :
      (s5, o3 ++ o4 ++ o5, true)).
 Proof. exact logon_accepted. Qed.
 Print Assumptions C06_accepted_answer.
+
+(* within the limits and approved, but with an interval no timer can be started with (possible only
+   when the configured limits admit a non-positive interval): one Reject naming HeartBtInt, through
+   Session.send, which leaves the state alone *)
+Theorem C06_unstartable :
+  forall cfg s d lm,
+    parse_as msgtype_Logon tpl_Logon d = Ok lm -> s_state s = WaitingLogon ->
+    let ns := logon_settings cfg (s_settings s) lm in
+    check_logon_params cfg (upd_settings s ns) (st_enc ns) (st_hb ns) = None -> c_approve cfg ns = true ->
+    (st_hb ns <= 0)%Z ->
+    run_in_handler cfg s HLogon d =
+    (let '(s', o) := session_send cfg (upd_settings s ns)
+                       (mk_reject reject_incorrect_value tagnum_HeartBtInt (get_int tag_MsgSeqNum (m_header lm))) in (s', o, true)).
+Proof. exact logon_unstartable. Qed.
+Print Assumptions C06_unstartable.
 
 (* any other Logon while waiting: one Reject by the Logon's sequence number, naming the
    offending tag when there is one; the state is not touched (only the settings record) *)
